@@ -43,7 +43,7 @@ example : ¬ Covered { tables with reads := tables.reads.filter (· ≠ (.CFGBui
     .While .f_orelse := by decide +kernel
 example : ¬ Covered { tables with reads := tables.reads.filter (· ≠ (.ExprSynthesizer, .Call, .f_keywords, .guard)) }
     .Call .f_keywords := by decide +kernel
-example : disp tables fuel .If .f_orelse = .handled ∧ disp tables fuel .Try .f_handlers = .nodeRejected ∧
+example : disp tables fuel .If .f_orelse = .handled ∧ disp tables fuel .Starred .f_value = .handled ∧ disp tables fuel .Try .f_handlers = .nodeRejected ∧
     disp tables fuel .keyword .f_arg = .unreachable ∧ disp tables fuel .arguments .f_vararg = .rejected ∧
     disp tables fuel .arg .f_annotation = .handled := by decide +kernel
 
